@@ -1,5 +1,5 @@
     // ===== src/filter/bcj/arm.rs =====
-    use crate::filter::bcj::verif_kani::bcj_group_roundtrip;
+    use crate::filter::bcj::verif_kani::{bcj_group_roundtrip, bcj_split_homomorphism};
     #[kani::proof]
     #[kani::unwind(10)]
     fn c11_bcj_arm_group() { bcj_group_roundtrip::<8>(BCJFilter::new_arm, 4, 8, 3); }
@@ -18,3 +18,33 @@
     #[kani::proof]
     #[kani::unwind(10)]
     fn c11_bcj_arm64_short() { bcj_group_roundtrip::<6>(BCJFilter::new_arm64, 4, 0, 3); }
+    #[kani::proof]
+    #[kani::unwind(14)]
+    fn c07_bcj_arm_split_k5_enc() { bcj_split_homomorphism::<10>(BCJFilter::new_arm, 4, 5, true); }
+    #[kani::proof]
+    #[kani::unwind(14)]
+    fn c07_bcj_arm_split_k5_dec() { bcj_split_homomorphism::<10>(BCJFilter::new_arm, 4, 5, false); }
+    #[kani::proof]
+    #[kani::unwind(14)]
+    fn c07_bcj_arm_split_k6_enc() { bcj_split_homomorphism::<10>(BCJFilter::new_arm, 4, 6, true); }
+    #[kani::proof]
+    #[kani::unwind(14)]
+    fn c07_bcj_arm_split_k6_dec() { bcj_split_homomorphism::<10>(BCJFilter::new_arm, 4, 6, false); }
+    #[kani::proof]
+    #[kani::unwind(14)]
+    fn c07_bcj_thumb_split_k5_enc() { bcj_split_homomorphism::<10>(BCJFilter::new_arm_thumb, 2, 5, true); }
+    #[kani::proof]
+    #[kani::unwind(14)]
+    fn c07_bcj_thumb_split_k5_dec() { bcj_split_homomorphism::<10>(BCJFilter::new_arm_thumb, 2, 5, false); }
+    #[kani::proof]
+    #[kani::unwind(14)]
+    fn c07_bcj_thumb_split_k6_enc() { bcj_split_homomorphism::<10>(BCJFilter::new_arm_thumb, 2, 6, true); }
+    #[kani::proof]
+    #[kani::unwind(14)]
+    fn c07_bcj_thumb_split_k6_dec() { bcj_split_homomorphism::<10>(BCJFilter::new_arm_thumb, 2, 6, false); }
+    #[kani::proof]
+    #[kani::unwind(14)]
+    fn c07_bcj_arm64_split_k6_enc() { bcj_split_homomorphism::<10>(BCJFilter::new_arm64, 4, 6, true); }
+    #[kani::proof]
+    #[kani::unwind(14)]
+    fn c07_bcj_arm64_split_k6_dec() { bcj_split_homomorphism::<10>(BCJFilter::new_arm64, 4, 6, false); }
